@@ -580,6 +580,9 @@ protected:
               ConditionalConstraint< QuadConRhs<0> >
               { { std::move(lhs.GetAlgConBody()),
                   -lhs.constant_term() } } );
+    if (eq.is_constant())         // the equality was decided by presolve
+      return EExpr{ EExpr::Constant{
+          0.0==eq.constant_term() ? 1.0 : 0.0 } };
     assert(eq.is_variable());
     return AssignResult2Args(
           NotConstraint({eq.get_representing_variable()}));
